@@ -230,6 +230,8 @@ def run(ctx):
     D.error_discipline(ctx, "R-C01.8", scope=lambda f: f.startswith(("readable::", "<snapshot::", "snapshot::", "iter::", "<iter::", "guard::", "keyspace::Keyspace::")))
 
     # ---- borrowed obligations (mechanisms owned by other properties that this property's verdict also rests on)
+    # all items of a batch share one seqno: their order decides which write to a key wins
+    ctx.borrow("C04", ["R-C04.8"], "R-C01.10")
     # journal rotation is invisible only if no sealed journal is deleted while a keyspace still needs it
     ctx.borrow("C10", ["R-C10.1"], "R-C01.6")
     # point reads and scans agree only if both read at a view instant
